@@ -77,6 +77,10 @@ def scenarios(tier):
             L.append("leak2 %s %s" % (fl, ep))
             for who in ("provided", "required", "name"):
                 L.append("hashhook %s %s %s" % (fl, ep, who))
+            if fl == "verifying":
+                L.append("genhook %s %s" % (fl, ep))
+            if ep in ("queryAdapter", "adapter_hook", "queryMultiAdapter"):
+                L.append("superself %s %s" % (fl, ep))
             if ep in ("queryAdapter", "adapter_hook", "queryMultiAdapter", "lookup"):
                 L.append("leak %s %s" % (fl, ep))
             if ep in ("lookup", "lookupAll", "subscriptions"):
